@@ -1403,6 +1403,18 @@ def exp_top_binade_lines(ps, names=("exp",), modes=("E", "A")):
     return lines
 
 
+def sigmoid_negative_lines(rng, per, modes=("E", "A")):
+    """sigmoid of moderately negative arguments (-16 < x <= -1): e^x, 1 + e^x and the quotient are rounded one after the
+    other and the three errors add up there (dense random sampling; about 2 arguments in 10^4 show the extreme)"""
+    lines = []
+    for (E, P) in [(8, 24), (11, 53), (5, 14), (8, 12), (15, 64), (10, 30)]:
+        for m in modes:
+            s = Sem(E, P, m)
+            for _ in range(per):
+                lines.append("fn sigmoid %s %s" % (s, ftok("N", 1, rng.choice([0, 1, 1, 2, 2, 3]), rand_mant(rng, P))))
+    return lines
+
+
 def log_near_one_lines(rng, fmts, per=24, modes=MODES):
     lines = []
     for (E, P) in fmts:
